@@ -51,6 +51,7 @@ type FuncContract struct {
 	Invs     map[int][]*Clause
 	Decr     map[int]*Clause
 	Bounded  map[int]string // loop ordinal -> name of the bounded stand-in covering its termination
+	Comparator *Clause // closures passed to sort.Slice: ret == Comparator(i, j)
 	Steps    map[int][]*Clause // relational per-iteration obligations (checked on back edges only)
 	Entries  map[int][]*Clause // obligations on loop entry only
 	Inline   bool
@@ -98,7 +99,7 @@ func newContracts() *Contracts {
 }
 
 var clauseKeywords = map[string]bool{"func": true, "props": true, "requires": true, "ensures": true, "assigns": true,
-	"loop": true, "inline": true, "lemma": true, "pure": true, "ghost": true, "canary": true, "trusted": true, "canarylemma": true}
+	"loop": true, "inline": true, "lemma": true, "pure": true, "ghost": true, "canary": true, "trusted": true, "canarylemma": true, "comparator": true}
 
 func (cs *Contracts) parseFile(path, pkgPath string) error {
 	data, err := os.ReadFile(path)
@@ -192,6 +193,19 @@ func (cs *Contracts) parseFile(path, pkgPath string) error {
 				}
 				cur.Ensures = append(cur.Ensures, c)
 			}
+		case "comparator":
+			if cur == nil {
+				return fmt.Errorf("%s:%d: comparator outside func", path, r.line)
+			}
+			c, err := mk("comparator", rest)
+			if err != nil {
+				return err
+			}
+			cur.Comparator = c
+			// it is also a postcondition of the closure: ret == <expr>
+			ec := &Clause{Kind: "ensures", Label: "comparator", Text: "ret == (" + rest + ")", Line: r.line, File: path}
+			ec.E = &EBinary{Op: "==", X: &EIdent{Name: "ret"}, Y: c.E}
+			cur.Ensures = append(cur.Ensures, ec)
 		case "canary":
 			// canary <label> : expr   (attached to current func)
 			if cur == nil {
